@@ -30,7 +30,7 @@ def conflicts(p, paths):
 
 class Main(P.PorcelainSuite):
     name = "main"
-    quick_n = 170
+    quick_n = 150
     thorough_n = 2500
     buckets = [(5, "hard"), (3, "untracked"), (3, "rmcached"), (2, "staged"), (2, "random"), (1, "errors"), (1, "df")]
     weights = {"force": 6, "plain": 2, "ckeep": 1, "hard": 6, "merge": 1, "keep": 1, "mixed": 1, "soft": 1}
@@ -76,6 +76,14 @@ class Main(P.PorcelainSuite):
                 hd = P.tree(c, P.head_commit(pre)) or {}
                 return "untracked-lost%s op %d: untracked %s (not in the target) was %s, now %s" % (
                     ":in-head-tree" if p in hd else "", k, p, e, pwt.get(p))
+        hd = P.tree(c, P.head_commit(pre)) or {}
+        for p, e in sorted(preidx.items()):
+            # a path that was tracked and that the target does not have must be gone ("exactly" the target)
+            if p in t or conflicts(p, t) or p not in prewt:
+                continue
+            if p in pwt:
+                return "stale-tracked%s op %d: %s was tracked (index %s), is not in the target, and is still on disk as %s" % (
+                    ":staged-new" if p not in hd else "", k, p, e, pwt.get(p))
         if g:
             if g["status2"].startswith("ERROR"):
                 return "op %d: git status failed: %s" % (k, g["status2"][:200])
@@ -95,6 +103,8 @@ class Main(P.PorcelainSuite):
     def finding_class(self, case, reason, reply):
         if reason.startswith("untracked-lost:in-head-tree"):
             return "hard-reset-deletes-untracked-head-path"
+        if reason.startswith("stale-tracked:staged-new"):
+            return "hard-reset-keeps-staged-new-file"
         return None
 
 
